@@ -87,7 +87,8 @@ PROPS = {
         explanation='the DocumentOrder layer: get/push/remove/insert_after/insert_before of info/src/lib.rs verified against a sequence-of-live-ids view with the data-structure invariant "no live id twice": the key of a node is 1 + its first index (0 when absent), so keys of present nodes are non-zero and pairwise distinct (lemma), push appends without moving any other key, remove deletes exactly one entry, insert_after/insert_before place the node directly next to the reference node, and a refused call changes nothing; on top of it (unit c13_tree) the callers choose the right neighbour: append numbers the whole inserted subtree after the LAST DESCENDANT of the parent, insert_before before the reference child, append_attribute after the last attribute and before the children, and last_child_or_self_id of elements and documents answers the last item of the subtree; the subtree layer (unit c14_subtree, over a concrete recursive item tree): sub_items lists namespace declarations, other attributes, children in that order, last_descendant_or_self_id answers the last id of the pre-order list, place_descendants puts every id below an item, contiguously and in pre-order, directly after it, and place_subtree_after/_before put the whole subtree next to the anchor -- by structural induction through the recursive call, with the sequence surgery proved as lemmas; the initial numbering (unit c14_init: init_order_recursive of elements, documents and attributes, induction by contract over the recursion) appends exactly the subtree in the order element, namespace declarations, attributes, children',
     ),
     'C19': dict(
-        standin_ops=['xpath.query.ctx_reuse'],
+        standin_ops=['xpath.query.ctx_reuse', 'xpath.corpus_repeat'],
+        quick_grids=['xpath.corpus_repeat'],
         verus_units=['eval_ctx'],
         level='proof',
         trusted_base=TRUSTED_VERUS,
@@ -107,7 +108,8 @@ PROPS = {
         explanation='ordering and duplicate-freeness of node-sets in the evaluator skeleton: every value-returning eval_* function promises that a node-set value lists strictly increasing order keys (eval_path_expr / eval_filtered_loc_expr: non-strictly, after the sort); eval_union_expr must re-establish it over the concatenation of its operands, eval_filter_expr must keep it through predicate filtering (so positional predicates on a parenthesised node-set count in document order)',
     ),
     'C06': dict(
-        standin_ops=['xpath.query.no_panic'],
+        standin_ops=['xpath.query.no_panic', 'xpath.mutants', 'xpath.deep'],
+        quick_grids=['xpath.mutants'],
         verus_units=['eval_ctx', 'func_strings', 'func_lib', 'c05_axes'],
         level='proof',
         trusted_base=TRUSTED_VERUS,
